@@ -364,6 +364,15 @@ func (x *rh) Ops() []seqmc.Op {
 			}
 		}
 		ops = append(ops, seqmc.Op{Name: "Len", A: i}, seqmc.Op{Name: "Do", A: i})
+		if i >= 0 {
+			// Do whose callback, at its k-th call, unlinks the successor of the visited cell (C = -1) or
+			// links cell C's ring in behind the visited cell
+			for k := 0; k < x.N; k++ {
+				for c := -1; c < len(x.he); c++ {
+					ops = append(ops, seqmc.Op{Name: "DoWith", A: i, B: k, C: c})
+				}
+			}
+		}
 	}
 	return ops
 }
@@ -454,6 +463,60 @@ func (x *rh) Apply(op seqmc.Op) *seqmc.Fail {
 		if a, b := e.Len(), r.Len(); a != b {
 			return seqmc.Failf("Len:result", "Len of c%d = %d, container/ring %d", op.A, a, b)
 		}
+	case "DoWith":
+		// The callback changes the ring while Do walks it. container/ring leaves Do undefined only "if
+		// f changes *r" (the cell Do was called on), so the action is taken only when none of the cells
+		// whose links it rewrites is that cell - decided on the reference side, applied to both.
+		if f := x.cyclic(op.A); f != nil {
+			return f
+		}
+		var a, b []int
+		act := false
+		calls := 0
+		refRunaway := false
+		func() {
+			defer func() {
+				if recover() != nil {
+					refRunaway = true
+				}
+			}()
+			x.refDoWith(r, op, &b, &act)
+		}()
+		if refRunaway {
+			// the relinking cut the start cell out of the ring being walked: the standard library's Do
+			// never returns either; outside what can be compared
+			return seqmc.Prune
+		}
+		runaway := false
+		func() {
+			defer func() {
+				if recover() != nil {
+					runaway = true
+				}
+			}()
+			calls = 0
+			e.Do(func(v int) {
+				a = append(a, v)
+				if calls++; calls > 4*x.N+8 {
+					panic("runaway")
+				}
+				if len(a)-1 != op.B || !act || v < 0 || v >= len(x.he) {
+					return
+				}
+				p := x.he[v]
+				if op.C < 0 {
+					p.Unlink(1)
+				} else {
+					p.Link(x.he[op.C])
+				}
+			})
+		}()
+		if runaway {
+			return seqmc.Failf("Do:result", "Do from c%d whose callback relinks cells behind the visited one (call %d, cell %d) does not terminate; container/ring visits %v", op.A, op.B, op.C, b)
+		}
+		if fmt.Sprint(a) != fmt.Sprint(b) {
+			return seqmc.Failf("Do:result", "Do from c%d whose callback relinks cells behind the visited one (call %d, cell %d) visits %v, container/ring %v", op.A, op.B, op.C, a, b)
+		}
 	case "Do":
 		if op.A >= 0 {
 			if f := x.cyclic(op.A); f != nil {
@@ -468,6 +531,39 @@ func (x *rh) Apply(op seqmc.Op) *seqmc.Fail {
 		}
 	}
 	return nil
+}
+
+// refDoWith runs container/ring's Do from r with the relinking callback of op; it panics when the walk
+// does not terminate.
+func (x *rh) refDoWith(r *cring.Ring, op seqmc.Op, b *[]int, act *bool) {
+	calls := 0
+	r.Do(func(v any) {
+		*b = append(*b, v.(int))
+		if calls++; calls > 4*x.N+8 {
+			panic("runaway")
+		}
+		if len(*b)-1 != op.B {
+			return
+		}
+		p := x.hr[v.(int)]
+		var s *cring.Ring
+		if op.C < 0 {
+			s = p.Move(2)
+		} else {
+			s = x.hr[op.C]
+		}
+		for _, touched := range []*cring.Ring{p, p.Next(), s, s.Prev()} {
+			if touched == r {
+				return
+			}
+		}
+		*act = true
+		if op.C < 0 {
+			p.Unlink(1)
+		} else {
+			p.Link(s)
+		}
+	})
 }
 
 func (x *rh) Key() string { return fp.Of(&x.he) }
